@@ -66,6 +66,26 @@ theorem rt_callListener (m : Event) (l : Nat) : Rel RT (callListener env m l) :=
   have := foldl_extQ_frame (env.deliver l m rs.st.time rs.world).2.2 rs.st
   exact ⟨this.1, this.2, [], by simp⟩
 
+theorem forEach_callListener_eff (m : Event) : ∀ (ls : List Nat) (rs : RS σ ω),
+    (M.forEach (callListener env m) ls rs).2.eff = rs.eff
+  | [], rs => rfl
+  | l :: ls, rs => by
+    simp only [M.forEach, M.bind]
+    split
+    · next a rs' heq =>
+      rw [forEach_callListener_eff m ls rs']
+      have : rs' = (callListener env m l rs).2 := by rw [heq]
+      rw [this]; rfl
+    · next e rs' heq =>
+      have : rs' = (callListener env m l rs).2 := by rw [heq]
+      rw [this]; rfl
+
+/-- raising a meta-event logs exactly that meta-event, whatever the listeners do -/
+theorem raiseMeta_eff (m : Event) (rs : RS σ ω) : (raiseMeta env m rs).2.eff = rs.eff ++ [.metaEv m] := by
+  unfold raiseMeta
+  simp only [M.bind, M.emit, M.get]
+  exact forEach_callListener_eff env m _ _
+
 theorem rt_raiseMeta (m : Event) : Rel RT (raiseMeta env m) := by
   unfold raiseMeta
   apply Rel.bind RT_pre (rt_emit _)
@@ -76,6 +96,11 @@ theorem rt_raiseMeta (m : Event) : Rel RT (raiseMeta env m) := by
 
 /-! ### any pre-order on run states that the primitive steps respect is respected by every part of
 a macro step (used for the step time, for "no contract evaluation when ignored", for deliveries) -/
+
+/-- effects logged by the interpreter itself outside contract evaluation and meta-events -/
+def Effect.isPlain : Effect → Bool
+  | .onExit _ | .onEntry _ | .action _ _ | .guard _ _ _ => true
+  | _ => false
 
 /-- `f` does not touch the step time nor the listeners -/
 def FrameFn (f : IState σ → IState σ) : Prop := ∀ st, (f st).time = st.time ∧ (f st).listeners = st.listeners
@@ -99,8 +124,8 @@ theorem popEvent_frame (st : IState σ) :
 structure Respects (R : RS σ ω → RS σ ω → Prop) : Prop where
   pre : PreOrd R
   modify : ∀ f : IState σ → IState σ, FrameFn f → Rel R (M.modify f : M σ ω Unit)
-  /-- logging of anything but a meta-event -/
-  emit : ∀ e : Effect, (∀ m, e ≠ .metaEv m) → Rel R (M.emit e : M σ ω Unit)
+  /-- logging of an executed code fragment or a guard evaluation -/
+  emit : ∀ e : Effect, e.isPlain = true → Rel R (M.emit e : M σ ω Unit)
   /-- raising a meta-event: log it and call the listeners -/
   raise : ∀ m : Event, Rel R (raiseMeta env m)
   /-- evaluating the contract conditions of one kind of one object -/
@@ -110,7 +135,8 @@ structure Respects (R : RS σ ω → RS σ ω → Prop) : Prop where
     (including the logging of a condition's evaluation) respect -/
 theorem contract_of_prims {R : RS σ ω → RS σ ω → Prop} (hpre : PreOrd R)
     (hmod : ∀ f : IState σ → IState σ, FrameFn f → Rel R (M.modify f : M σ ω Unit))
-    (hemit : ∀ e : Effect, (∀ m, e ≠ .metaEv m) → Rel R (M.emit e : M σ ω Unit))
+    (hemit : ∀ (k : CondKind) (o : ObjId) (i : Nat) (e : Option Event) (r : Option Bool),
+      Rel R (M.emit (.cond k o i e r) : M σ ω Unit))
     (kind : CondKind) (obj : Obj) (ev : Option Event) : Rel R (evalContract env kind obj ev) := by
   have hconds : ∀ (codes : List Code) (i : Nat), Rel R (evalConds env kind obj ev i codes) := by
     intro codes
@@ -120,7 +146,7 @@ theorem contract_of_prims {R : RS σ ω → RS σ ω → Prop} (hpre : PreOrd R)
       intro i
       unfold evalConds
       apply Rel.bind hpre (Rel.get hpre); intro st
-      apply Rel.bind hpre (hemit _ (by intro m h; cases h)); intro _
+      apply Rel.bind hpre (hemit _ _ _ _ _); intro _
       split
       · exact Rel.throw hpre _
       · exact Rel.throw hpre _
@@ -190,7 +216,7 @@ theorem rel_saveMemory (cfg0 : List Name) (s : StateDef) : ∀ chs : List Name, 
 
 theorem rel_exitState (cfg0 : List Name) (step : Micro) (s : StateDef) : Rel R (exitState env cfg0 step s) := by
   unfold exitState
-  apply Rel.bind H.pre (H.emit _ (by intro m h; cases h)); intro _
+  apply Rel.bind H.pre (H.emit _ rfl); intro _
   apply Rel.bind H.pre (rel_runCode H _ _); intro sent
   apply Rel.bind H.pre
   · split
@@ -211,7 +237,7 @@ theorem rel_exitState (cfg0 : List Name) (step : Micro) (s : StateDef) : Rel R (
 theorem rel_enterState (step : Micro) (s : StateDef) : Rel R (enterState env step s) := by
   unfold enterState
   apply Rel.bind H.pre (H.contract _ _ _); intro _
-  apply Rel.bind H.pre (H.emit _ (by intro m h; cases h)); intro _
+  apply Rel.bind H.pre (H.emit _ rfl); intro _
   apply Rel.bind H.pre (rel_runCode H _ _); intro sent
   apply Rel.bind H.pre (by apply H.modify; intro st; exact ⟨rfl, rfl⟩); intro _
   apply Rel.bind H.pre (H.raise _); intro _
@@ -221,7 +247,7 @@ theorem rel_fireTransition (step : Micro) (t : Trans) : Rel R (fireTransition en
   unfold fireTransition
   apply Rel.bind H.pre (H.contract _ _ _); intro _
   apply Rel.bind H.pre (H.contract _ _ _); intro _
-  apply Rel.bind H.pre (H.emit _ (by intro m h; cases h)); intro _
+  apply Rel.bind H.pre (H.emit _ rfl); intro _
   apply Rel.bind H.pre (rel_runCode H _ _); intro sent
   apply Rel.bind H.pre (H.contract _ _ _); intro _
   apply Rel.bind H.pre (H.contract _ _ _); intro _
@@ -275,7 +301,7 @@ theorem rel_logGuards (st : IState σ) (ev : Option Event) : ∀ l : List (Trans
   | [] => Rel.pure H.pre _
   | (t, exposed) :: rest => by
     unfold logGuards
-    apply Rel.bind H.pre (H.emit _ (by intro m h; cases h)); intro _
+    apply Rel.bind H.pre (H.emit _ rfl); intro _
     split
     · exact Rel.throw H.pre _
     · exact rel_logGuards st ev rest
@@ -352,7 +378,7 @@ theorem RT_respects : Respects env (RT : RS σ ω → RS σ ω → Prop) where
   modify f hf := rt_modify f hf
   emit e _ := rt_emit e
   raise m := rt_raiseMeta env m
-  contract := contract_of_prims env RT_pre (fun f hf => rt_modify f hf) (fun e _ => rt_emit e)
+  contract := contract_of_prims env RT_pre (fun f hf => rt_modify f hf) (fun _ _ _ _ _ => rt_emit _)
 
 theorem rt_computeSteps : Rel RT (computeSteps env) := rel_computeSteps (RT_respects env)
 theorem rt_runSteps (computed : List Micro) : Rel RT (runSteps env computed) := rel_runSteps (RT_respects env) computed
